@@ -93,7 +93,7 @@ Record rghost := {
   h_reqs_pulled : list (N * msg);       (* (requestor key, request as pulled) in pull order *)
   h_reqs_sent : list (N * msg);         (* (replier label, frame handed over with start_send Ok) *)
   h_reqs_refused : list (N * msg);      (* start_send on the replier's sink answered Err *)
-  h_reqs_dropped : list msg;            (* overwritten in the buffer while no replier was bound *)
+  h_reqs_dropped : list (option N * msg);   (* superseded in the one-request buffer, with the replier bound at that moment (None = nobody) *)
   h_reps_pulled : list frame;           (* replies pulled from the bound replier, in order *)
   h_reps_routed : list (N * msg);       (* (requestor sink label, forwarded message) with start_send Ok *)
   h_reps_failed : list (N * msg);       (* requestor sink answered Err to start_send *)
@@ -206,9 +206,9 @@ Definition gh_req_refused (l : N) (m : msg) (g : rghost) : rghost :=
      h_reqs_dropped := h_reqs_dropped g; h_reps_pulled := h_reps_pulled g; h_reps_routed := h_reps_routed g;
      h_reps_failed := h_reps_failed g; h_reps_discarded := h_reps_discarded g; h_bound := h_bound g;
      h_rejected := h_rejected g; h_keys := h_keys g; h_used := h_used g |}.
-Definition gh_req_dropped (m : msg) (g : rghost) : rghost :=
+Definition gh_req_dropped (srv : option N) (m : msg) (g : rghost) : rghost :=
   {| h_reqs_pulled := h_reqs_pulled g; h_reqs_sent := h_reqs_sent g; h_reqs_refused := h_reqs_refused g;
-     h_reqs_dropped := h_reqs_dropped g ++ [m]; h_reps_pulled := h_reps_pulled g; h_reps_routed := h_reps_routed g;
+     h_reqs_dropped := h_reqs_dropped g ++ [(srv, m)]; h_reps_pulled := h_reps_pulled g; h_reps_routed := h_reps_routed g;
      h_reps_failed := h_reps_failed g; h_reps_discarded := h_reps_discarded g; h_bound := h_bound g;
      h_rejected := h_rejected g; h_keys := h_keys g; h_used := h_used g |}.
 Definition gh_rep_pulled (f : frame) (g : rghost) : rghost :=
@@ -561,7 +561,7 @@ Definition rstep_raw (s : rst) (e : rev) : option rst :=
         match r with
         | FItem (FMsg m) =>
           let g := gh_req_pulled key m (rgh s) in
-          let g := match b_req s with Some (FMsg old) => gh_req_dropped old g | _ => g end in
+          let g := match b_req s with Some (FMsg old) => gh_req_dropped (server s) old g | _ => g end in
           Some (u_ctl (u_gh (u_armed (u_req s (Some (FMsg (tag_req key m)))) (disarm (SStream l) (rarmed s))) g) RBothCheck)
         | FItem _ => Some (u_ctl (u_armed s (disarm (SStream l) (rarmed s))) RBothCheck)
         | FErrR => Some (u_ctl (u_armed s (disarm (SStream l) (rarmed s))) RBothCheck)
